@@ -659,6 +659,34 @@ impl<'a, 'src: 'a> Compiler<'a, 'src> {
     }
   }
 
+  /// Load a global the language refers to implicitly (the superclass of a class that names
+  /// none, the class of a blank catch). A user declaration that happens to share the name does
+  /// not stand in for it, in that case the symbol is read from the global module directly
+  fn implicit_global_get(&mut self, name: &Token<'src>) {
+    if self.shadows_global(name.str()) {
+      let name_slot = self.identifier_constant(name.str());
+      self.emit_byte(SymbolicByteCode::LoadGlobal(name_slot), name.end());
+    } else {
+      self.variable_get(name);
+    }
+  }
+
+  /// Is this name declared by the user in this or an enclosing function or in the module
+  fn shadows_global(&self, name: &str) -> bool {
+    if self.locals.iter().any(|local| local.symbol.name() == name) {
+      return true;
+    }
+
+    if let Some(symbol) = self.module_table.and_then(|table| table.get(name)) {
+      return symbol.state() != SymbolState::GlobalInitialized;
+    }
+
+    match self.enclosing {
+      Some(parent_ptr) => unsafe { parent_ptr.as_ref() }.shadows_global(name),
+      None => false,
+    }
+  }
+
   fn variable_set(&mut self, name: &Token<'src>) {
     match self.resolve_local(name.str()) {
       Some((local, state)) => match state {
@@ -1252,7 +1280,7 @@ impl<'a, 'src: 'a> Compiler<'a, 'src> {
       class_attributes.has_explicit_super_class = true;
       self.variable_get(&super_class.type_ref.name);
     } else {
-      self.variable_get(&Token::new(
+      self.implicit_global_get(&Token::new(
         TokenKind::Identifier,
         Lexeme::Slice(OBJECT),
         class.name.start(),
@@ -1734,7 +1762,10 @@ impl<'a, 'src: 'a> Compiler<'a, 'src> {
     let catch_end_label: Label = self.label_emitter.emit();
     self.scope(catch.end(), &catch.symbols, |self_| {
       // Load error class onto stack
-      self_.variable_get(catch.class.as_ref().unwrap_or(default_error));
+      match &catch.class {
+        Some(class) => self_.variable_get(class),
+        None => self_.implicit_global_get(default_error),
+      }
       self_.emit_byte(
         SymbolicByteCode::CheckHandler(catch_end_label),
         catch.start(),
